@@ -219,7 +219,9 @@ struct broker {
         if (pk.type == ref::CONNACK)
             e.i("sp", pk.sp).i("rm", num(0x21, 65535)).i("mqos", num(0x24, 2)).i("ra", num(0x25, 1))
              .i("maxpkt", num(0x27, 0)).i("tam", num(0x22, 0)).i("wa", num(0x28, 1)).i("sha", num(0x2A, 1))
-             .i("sia", num(0x29, 1)).i("ska", num(0x13, -1));
+             .i("sia", num(0x29, 1)).i("ska", num(0x13, -1))
+             // where the CONNACK ends in the byte stream of this connection: the client knows it once it has read that far
+             .i("end", (long long) ref::encode(pk).size() + [&] { auto* cn = W().find_conn(c); return cn ? cn->b2c_total : 0LL; }());
         else if (pk.type == ref::PUBLISH)
             e.i("qos", pk.qos).i("dup", pk.dup).i("retain", pk.retain).str("msg", msg)
              .str("pdig", ref::publish_digest(pk.topic, pk.payload, 0, 0, pk.props));
